@@ -68,7 +68,8 @@ def generate(rng, tier='quick', stack=None, **kw):
       o['t'] = 0.0
       o['early'] = True
   scn = {'world': 'w_transport', 'stack': stack, 'latency': rng.choice([0.0005, 0.002]), 'early': early,
-         'net': {'chunk': rng.choice(['none', 'some', 'bytes']), 'jitter': rng.choice([0.0, 0.0003])},
+         'net': {'chunk': rng.choice(['none', 'some', 'bytes']), 'jitter': rng.choice([0.0, 0.0003]),
+                 'io_errno': rng.choice(['reset', 'reset', 'timedout', 'hostunreach', 'netunreach'])},
          'ops': ops, 'directives': [], 'pilot': True,
          'long': rng.random() < (0.5 if stack == 'mux' else 0.0)}
   return scn
